@@ -63,8 +63,7 @@ static MPT_INTERFACE(metatype) *iterValueClone(const MPT_INTERFACE(metatype) *mt
 	
 	if ((ptr = mpt_iterator_values(values))) {
 		MPT_STRUCT(iteratorValues) *c = MPT_baseaddr(iteratorValues, ptr, _mt);
-		size_t diff = d->next - values;
-		c->next = ((const char *) (c + 1)) + diff;
+		c->next = d->next ? ((const char *) (c + 1)) + (d->next - values) : 0;
 		c->curr = d->curr;
 	}
 	return ptr;
